@@ -11,6 +11,7 @@ mod slice;
 mod lang;
 mod rgen;
 mod laws;
+mod errs;
 
 use serde_json::Value;
 use std::fs::{File, OpenOptions};
@@ -29,6 +30,7 @@ fn runner(engine: &str) -> Runner {
         "slice" => slice::run_case,
         "lang" => lang::run_case,
         "laws" => laws::run_case,
+        "errs" => errs::run_case,
         _ => die(&format!("unknown engine {}", engine)),
     }
 }
